@@ -1,5 +1,8 @@
 mod alloc;
 mod cfi;
+mod feat;
+#[path = "../../featrun/src/exec.rs"]
+mod featexec;
 mod gen;
 mod hist;
 mod macho;
@@ -66,6 +69,7 @@ fn main() {
         "macho" => macho::run(&tier, seed),
         "ana" => macho::run_ana(&tier, seed),
         "alloc" => alloc::run(&tier, seed),
+        "feat" => feat::run(&tier, seed, out.as_deref()),
         "mut" => mutate::run(&tier, seed, out.as_deref()),
         "mut-replay" => {
             let text = std::fs::read_to_string(out.as_deref().expect("--out <case file>")).expect("case file");
